@@ -223,6 +223,8 @@ def judge_network(net, ix, out, ctx):
         out.cls("has-one-way-road")
     if any(len(l.sections) > 1 for l in net.lanes):
         out.cls("has-multi-section-lane")
+    if any(len(g.lanes) >= 3 for g in net.laneGroups):
+        out.cls("has-group-with>=3-lanes")
     if net.shoulders:
         out.cls("has-shoulder")
     if net.sidewalks:
@@ -677,6 +679,22 @@ def draw_options(rng):
     return o
 
 
+DRIVABLE = ("driving", "entry", "exit", "offRamp", "onRamp", "connectingRamp")
+
+
+def max_lanes_per_side(rel):
+    """Largest number of drivable lanes on one side of a lane section (read from the XML)."""
+    import xml.etree.ElementTree as ET
+
+    best = 0
+    for sec in ET.fromstring(map_bytes(rel)).iter("laneSection"):
+        for side in ("left", "right"):
+            el = sec.find(side)
+            if el is not None:
+                best = max(best, sum(1 for l in el.iter("lane") if l.get("type") in DRIVABLE))
+    return best
+
+
 def plan(tier, seed, jobs):
     maps, skipped = all_maps()
     if not maps:
@@ -686,6 +704,10 @@ def plan(tier, seed, jobs):
         ncombo, nprobe, ncache, nmut = 3, 120, 1, 15
     else:
         ncombo, nprobe, ncache, nmut = 8, 400, 2, 30
+    if not any(max_lanes_per_side(rel) >= 3 for rel, _ in maps):
+        # lane-level adjacency / merge predicates are vacuous on roads with < 3 lanes a side
+        raise core.HarnessError("map selection contains no road with >= 3 drivable lanes per "
+                                "direction")
     shards = []
     for rel, size in maps:
         rng = random.Random(f"C20:{seed}:{rel}")
